@@ -15,6 +15,7 @@ LEVEL_TEXT["C19"] = (
     "std::mt19937 + libstdc++-12 generate_canonical / normal (polar) / uniform_int (Lemire), incl. single calls of 2^16..2^20 values (digest) and the engine position after them. "
     "Measured only (long double oracle, the property's tolerances): noise level within 6 standard errors, zero mean, whiteness, re/im independence, "
     "Gaussian shape; thd within 0.1 dB, frequencies within 0.1 bin, sinad within 1.5 dB on the stated tone family; Float residue of the scale invariance."
+    " REGENERATED TIE (Props/C19Gen): the peak / descent walks of lib/snr.cpp (_locate_peak, _left_descent, _right_descent, the plateau walk and lobe bounds of _get_psd_tone) are translated from the C++ on every run as fuel-bounded recursions and proved equal to Model/Noise's getTone bounds (locatePeak_eq, leftDescent_eq, rightDescent_eq, toneBounds_eq); scale equivariance is restated for them (gen_toneBounds_scale). "
 )
 
 PROPS["C19"] = {
